@@ -85,8 +85,19 @@ extern Elem *WB; extern int WBL; extern unsigned long WBN; extern int WBA;
 /* ---- meters --------------------------------------------------------------------------------- */
 extern unsigned long alloc_calls, dealloc_calls, gen_calls;
 extern unsigned int  used_kinds;
-enum { K_DEFAULT = 1, K_COPY = 2, K_MOVE = 4, K_ASSIGN_COPY = 8, K_ASSIGN_MOVE = 16, K_DESTROY = 32,
-       K_SWAP = 64, K_CONVERT = 128, K_COMPARE = 256, K_BYTES = 512 };
+#define K_DEFAULT 1u
+#define K_COPY 2u
+#define K_MOVE 4u
+#define K_ASSIGN_COPY 8u
+#define K_ASSIGN_MOVE 16u
+#define K_DESTROY 32u
+#define K_SWAP 64u
+#define K_CONVERT 128u
+#define K_COMPARE 256u
+#define K_BYTES 512u
+/* only element operations of the kinds in mask were used since entry (C13: requirement minimality; C09: none at all) */
+#define ONLY_KINDS(mask)    ((used_kinds & ~(unsigned int) (mask)) == (__CPROVER_old (used_kinds) & ~(unsigned int) (mask)))
+#define ONLY_KINDS_LE(mask) ((used_kinds & ~(unsigned int) (mask)) == (__CPROVER_loop_entry (used_kinds) & ~(unsigned int) (mask)))
 
 /* ---- pointer predicates (quantifier-free, over __CPROVER_same_object / POINTER_OFFSET) ------ */
 #define OFF(p)        ((unsigned long) __CPROVER_POINTER_OFFSET (p))
